@@ -50,8 +50,9 @@ Definition import_tag : string := "mage:import".
 (* ---------------------------------------------------------------- syntax handed over by go/parser *)
 Definition group := option (list string).            (* *ast.CommentGroup; Some l = its List *)
 
-(* is_path: the value of the path literal; is_raw: the literal is written with back quotes
-   (`import \`x\``), for which lit2string answers !ok *)
+(* is_path: the value of the path literal (strconv.Unquote, which is what lit2string is since fix
+   48f17db); is_raw: the literal is written with back quotes (`import \`x\``), for which the
+   lit2string of the tree before that fix answered !ok *)
 Record impspec := { is_doc : group; is_comment : group; is_path : string; is_raw : bool }.
 Record gendecl := { gd_doc : group; gd_lparen : bool; gd_specs : list impspec }.
 Definition file := list gendecl.                     (* the import declarations of one file, in order *)
@@ -78,7 +79,12 @@ Definition from_group : group -> list string := from_group_gen (Nat.eqb 0).
 Definition from_group_pinned : group -> list string := from_group_gen (Nat.eqb 9).
 
 (* ---------------------------------------------------------------- getImportPath : (path, alias, ok) *)
-Definition get_import_path_gen (fg : group -> list string) (imp : impspec) : option (string * string) :=
+(* [lit_ok]: does lit2string accept the path literal.  Current code: strconv.Unquote of a literal
+   the parser accepted - always.  Tree before fix 48f17db: only literals in double quotes. *)
+Definition lit_ok_now (imp : impspec) : bool := true.
+Definition lit_ok_before_48f17db (imp : impspec) : bool := negb (is_raw imp).
+
+Definition get_import_path_gen (fg : group -> list string) (lit_ok : impspec -> bool) (imp : impspec) : option (string * string) :=
   let leadingVals := fg (is_doc imp) in
   let trailingVals := fg (is_comment imp) in
   let vals :=
@@ -92,7 +98,7 @@ Definition get_import_path_gen (fg : group -> list string) (imp : impspec) : opt
   match vals with
   | None => None
   | Some vals =>
-      if is_raw imp then None else                     (* path, ok = lit2string(imp.Path); if !ok { return } *)
+      if negb (lit_ok imp) then None else              (* path, ok = lit2string(imp.Path); if !ok { return } *)
       let path := is_path imp in
       match vals with
       | [_] => Some (path, EmptyString)                (* just the import tag, this is a root import *)
@@ -101,8 +107,10 @@ Definition get_import_path_gen (fg : group -> list string) (imp : impspec) : opt
       end
   end.
 
-Definition get_import_path : impspec -> option (string * string) := get_import_path_gen from_group.
-Definition get_import_path_pinned : impspec -> option (string * string) := get_import_path_gen from_group_pinned.
+Definition get_import_path : impspec -> option (string * string) := get_import_path_gen from_group lit_ok_now.
+Definition get_import_path_pinned : impspec -> option (string * string) := get_import_path_gen from_group_pinned lit_ok_now.
+Definition get_import_path_before_48f17db : impspec -> option (string * string) :=
+  get_import_path_gen from_group lit_ok_before_48f17db.
 
 (* the tag of a spec as the scanner sees it: None = not tagged, Some None = root import,
    Some (Some a) = imported under alias a *)
@@ -113,6 +121,7 @@ Definition tag_of (r : option (string * string)) : option (option string) :=
   end.
 Definition tagged (imp : impspec) : option (option string) := tag_of (get_import_path imp).
 Definition tagged_pinned (imp : impspec) : option (option string) := tag_of (get_import_path_pinned imp).
+Definition tagged_before_48f17db (imp : impspec) : option (option string) := tag_of (get_import_path_before_48f17db imp).
 
 (* ---------------------------------------------------------------- setImports, scanning part *)
 Definition is_none {A} (o : option A) : bool := match o with None => true | Some _ => false end.
@@ -123,8 +132,32 @@ Definition eff_spec (gen : gendecl) (s : impspec) : impspec :=
   then {| is_doc := gd_doc gen; is_comment := is_comment s; is_path := is_path s; is_raw := is_raw s |}
   else s.
 
-(* importNames is a Go map keyed by the import path, read back in sorted key order
-   (getNamedImports): kept here as an association list sorted by key; assignment replaces. *)
+(* importNames.  Current code (fix 5f65f03): a Go map used as a SET of (path, alias) pairs
+   (`importNames[namedImport{name, alias}] = true`); getNamedImports collects the keys and sorts them
+   by (path, alias).  Here: the list of distinct keys ([set_put]: put if absent) and an insertion
+   sort ([sort_pairs]); the sorted list of distinct keys does not depend on Go's iteration order. *)
+Definition pair_eqb (a b : string * string) : bool := String.eqb (fst a) (fst b) && String.eqb (snd a) (snd b).
+Definition set_put (path alias : string) (m : list (string * string)) : list (string * string) :=
+  if existsb (pair_eqb (path, alias)) m then m else m ++ [(path, alias)].
+
+(* named[i].path != named[j].path ? path < path : alias < alias *)
+Definition pair_compare (a b : string * string) : comparison :=
+  match String.compare (fst a) (fst b) with
+  | Eq => String.compare (snd a) (snd b)
+  | c => c
+  end.
+Fixpoint insert_sorted (k : string * string) (m : list (string * string)) : list (string * string) :=
+  match m with
+  | [] => [k]
+  | k' :: r => match pair_compare k k' with
+               | Gt => k' :: insert_sorted k r
+               | _ => k :: m
+               end
+  end.
+Definition sort_pairs (l : list (string * string)) : list (string * string) := fold_right insert_sorted [] l.
+
+(* Tree before fix 5f65f03: a Go map keyed by the import PATH (`importNames[name] = alias`), read
+   back in sorted key order: an association list sorted by key; assignment replaces. *)
 Fixpoint map_set (k v : string) (m : list (string * string)) : list (string * string) :=
   match m with
   | [] => [(k, v)]
@@ -138,19 +171,22 @@ Fixpoint map_set (k v : string) (m : list (string * string)) : list (string * st
 
 Definition scan_acc := (list (string * string) * list string)%type.    (* importNames, rootImports *)
 
-Definition scan_step (gip : impspec -> option (string * string)) (acc : scan_acc) (s : impspec) : scan_acc :=
+(* [put]: the assignment to importNames *)
+Definition scan_step (gip : impspec -> option (string * string))
+           (put : string -> string -> list (string * string) -> list (string * string))
+           (acc : scan_acc) (s : impspec) : scan_acc :=
   match gip s with
   | None => acc
   | Some (name, alias) =>
       if is_empty alias then (fst acc, snd acc ++ [name])
-      else (map_set name alias (fst acc), snd acc)
+      else (put name alias (fst acc), snd acc)
   end.
 
-Definition scan_decl gip (acc : scan_acc) (gen : gendecl) : scan_acc :=
-  fold_left (fun a s => scan_step gip a (eff_spec gen s)) (gd_specs gen) acc.
-Definition scan_file gip (acc : scan_acc) (f : file) : scan_acc := fold_left (scan_decl gip) f acc.
+Definition scan_decl gip put (acc : scan_acc) (gen : gendecl) : scan_acc :=
+  fold_left (fun a s => scan_step gip put a (eff_spec gen s)) (gd_specs gen) acc.
+Definition scan_file gip put (acc : scan_acc) (f : file) : scan_acc := fold_left (scan_decl gip put) f acc.
 (* files in sorted file-name order, as setImports walks them *)
-Definition scan gip (files : list file) : scan_acc := fold_left (scan_file gip) files ([], []).
+Definition scan gip put (files : list file) : scan_acc := fold_left (scan_file gip put) files ([], []).
 
 (* ---------------------------------------------------------------- the imported package *)
 (* parse.Function, the four fields TargetName and ID read *)
@@ -192,12 +228,14 @@ Fixpoint collect {A} (f : A -> option import) (l : list A) : option (list import
               end
   end.
 
-(* setImports(gocmd, dir, pi): named imports in sorted path order, then the root imports.
+(* setImports(gocmd, dir, pi): named imports in sorted key order (getNamedImports), then the root imports.
+   [put]/[order]: the assignment to importNames and the order its keys are visited in.
    [lookup_dir]: the directory handed to getImportFrom; current code: dir (the magefile directory);
    tree before fix b79c739: "" (getImport), i.e. the start directory. *)
-Definition set_imports_gen gip (lookup_dir : string -> string) (dir : string) (files : list file) : option (list import) :=
-  let '(importNames, rootImports) := scan gip files in
-  match collect (fun pa => get_import_from (lookup_dir dir) (fst pa) (snd pa)) importNames with
+Definition set_imports_gen gip put (order : list (string * string) -> list (string * string))
+           (lookup_dir : string -> string) (dir : string) (files : list file) : option (list import) :=
+  let '(importNames, rootImports) := scan gip put files in
+  match collect (fun pa => get_import_from (lookup_dir dir) (fst pa) (snd pa)) (order importNames) with
   | None => None
   | Some named =>
       match collect (fun s => get_import_from (lookup_dir dir) s EmptyString) rootImports with
@@ -207,9 +245,16 @@ Definition set_imports_gen gip (lookup_dir : string -> string) (dir : string) (f
   end.
 
 Definition set_imports : string -> list file -> option (list import) :=
-  set_imports_gen get_import_path (fun d => d).
+  set_imports_gen get_import_path set_put sort_pairs (fun d => d).
+(* before fix b79c739 (lookup in the start directory) *)
 Definition set_imports_start_dir : string -> list file -> option (list import) :=
-  set_imports_gen get_import_path (fun _ => EmptyString).
+  set_imports_gen get_import_path set_put sort_pairs (fun _ => EmptyString).
+(* before fix 5f65f03 (importNames keyed by the path alone) *)
+Definition set_imports_path_keyed : string -> list file -> option (list import) :=
+  set_imports_gen get_import_path map_set (fun m => m) (fun d => d).
+(* before fix 48f17db (raw path literals not scanned) *)
+Definition set_imports_before_48f17db : string -> list file -> option (list import) :=
+  set_imports_gen get_import_path_before_48f17db set_put sort_pairs (fun d => d).
 End GoTool.
 
 (* ---------------------------------------------------------------- names *)
